@@ -20,20 +20,16 @@ import (
 	"math/big"
 	"os"
 	"path/filepath"
-	"reflect"
 	"sort"
 	"sync"
 	"sync/atomic"
 	"time"
-	"unsafe"
 
-	clientfc "k8s.io/client-go/util/flowcontrol"
 	"k8s.io/klog"
 
 	proxyv1alpha1 "github.com/kubewharf/kubegateway/pkg/apis/proxy/v1alpha1"
 	"github.com/kubewharf/kubegateway/pkg/flowcontrols"
 	"github.com/kubewharf/kubegateway/pkg/flowcontrols/flowcontrol"
-	"github.com/kubewharf/kubegateway/pkg/flowcontrols/remote"
 
 	"verifharness/rig"
 )
@@ -162,7 +158,7 @@ type gateway struct {
 	strategy proxyv1alpha1.LimitStrategy
 	extra    bool
 	clk      *scriptClock      // nil: wall clock
-	lastRL   clientfc.RateLimiter
+	lastRL   interface{}
 	qps      int
 	burst    int
 	// clockFailed: the scripted clock could not be installed in a limiter the real code built (another concrete
@@ -206,9 +202,10 @@ func (g *gateway) current() flowcontrol.FlowControl {
 func (g *gateway) attach() (swapped bool) {
 	var inner flowcontrol.FlowControl = g.current()
 	if g.path == "sync" {
-		inner = remote.VerifC06Inner(inner)
+		inner = innerOf(inner)
 	}
-	rl, ok := flowcontrol.VerifC06Limiter(inner)
+	ref := bucketOf(inner)
+	rl, ok := ref.id, ref.found
 	if !ok {
 		g.trackable = false
 		if g.clk != nil {
@@ -217,35 +214,13 @@ func (g *gateway) attach() (swapped bool) {
 		return false
 	}
 	g.trackable = true
-	if rl == g.lastRL {
+	if sameBucket(rl, g.lastRL) {
 		return false
 	}
 	g.lastRL = rl
-	if g.clk != nil && !setClock(rl, g.clk) {
+	if g.clk != nil && !setClock(ref.rl, g.clk) {
 		g.clockFailed = true // never fatal: the caller falls back to the wall clock
 	}
-	return true
-}
-
-// setClock makes the client-go limiter the real code built (a *tokenBucketRateLimiter) read the scripted
-// clock instead of the wall clock: its unexported `clock` field is the only thing written; the rate.Limiter
-// inside (the bucket) is the one the real code constructed. (An -overlay file added to a module-cache
-// directory is ignored by the go command's module index, hence reflection.)
-func setClock(rl clientfc.RateLimiter, clk clientfc.Clock) (ok bool) {
-	defer func() {
-		if recover() != nil {
-			ok = false
-		}
-	}()
-	v := reflect.ValueOf(rl)
-	if v.Kind() != reflect.Ptr || v.Elem().Kind() != reflect.Struct {
-		return false
-	}
-	f := v.Elem().FieldByName("clock")
-	if !f.IsValid() {
-		return false
-	}
-	reflect.NewAt(f.Type(), unsafe.Pointer(f.UnsafeAddr())).Elem().Set(reflect.ValueOf(clk))
 	return true
 }
 
@@ -383,24 +358,22 @@ func judgeScript(c *rig.Ctx, cs Case, out scriptOut, pmsg string) *failure {
 	if pmsg != "" {
 		return &failure{"judge", "c06.panic", "the limiter panicked: " + pmsg, nil, nil}
 	}
-	if out.FlagBad != "" {
-		return &failure{"judge", "c06.resize.answer", out.FlagBad, out.Answers, nil}
-	}
-	// the property, on the real code's answers
+	// the property, on the real code's answers (judge.go): stretches between CHANGES of the configured numbers
 	if sortedScript(cs) {
-		var v struct{ Upper, Lower, Resize bool }
-		if err := c.Model("C06.judge", map[string]interface{}{"qps": cs.QPS, "burst": cs.Burst, "slack": 1, "obs": out.Obs}, &v); err != nil {
-			return &failure{"diff", "c06.model-error", "judge: " + err.Error(), nil, nil}
+		bad, which, err := judgeEpoch(c, cs.QPS, cs.Burst, out.Obs, 1)
+		if err != nil {
+			return &failure{"diff", "c06.model-error", "seg: " + err.Error(), nil, nil}
 		}
-		if !v.Resize {
-			return &failure{"judge", "c06.resize", "a reconfiguration to the same (qps,burst) replaced the bucket, or one to different values kept it: " + renderAnswers(cs, out.Answers), out.Answers, nil}
+		if bad != nil && which == "upper" && upperJudged(cs) {
+			return &failure{"judge", "c06.upper.script", "more than ceil(burst + qps*T) admitted in a window without a change of (qps,burst), " + bad.String() + ": " + renderAnswers(cs, out.Answers), bad, nil}
 		}
-		if !v.Upper && upperJudged(cs) {
-			return &failure{"judge", "c06.upper.script", "more than ceil(burst + qps*T) admitted in a window without reconfiguration: " + renderAnswers(cs, out.Answers), out.Answers, nil}
+		if bad != nil && which == "lower" && lowerJudged(cs) {
+			return &failure{"judge", "c06.lower.script", "after an idle period more than one of the owed min(burst, floor(qps*idle)) requests was refused, " + bad.String() + ": " + renderAnswers(cs, out.Answers), bad, nil}
 		}
-		if !v.Lower && lowerJudged(cs) {
-			return &failure{"judge", "c06.lower.script", "after an idle period more than one of the owed min(burst, floor(qps*idle)) requests was refused: " + renderAnswers(cs, out.Answers), out.Answers, nil}
-		}
+	}
+	// what Resize answers is not part of the property: a difference is a broken tie
+	if out.FlagBad != "" {
+		return &failure{"diff", "c06.tie.resize-answer", out.FlagBad, out.Answers, nil}
 	}
 	// correspondence
 	var m struct {
@@ -800,7 +773,7 @@ func (g *gateway) served() (problem string) {
 		}
 		inner := fc
 		if g.path == "sync" {
-			inner = remote.VerifC06Inner(fc)
+			inner = innerOf(fc)
 		}
 		tb, ok := inner.(flowcontrol.TokenBucketFlowControl)
 		if !ok || inner.Type() != proxyv1alpha1.TokenBucket || int(tb.QPS()) != g.qps || int(tb.Burst()) != g.burst {
